@@ -11,7 +11,7 @@ theorems named `legacy_…` are the machine-checked counterexamples of the snaps
 import PsdVerif.Lemmas.TreeHistory
 
 namespace PsdVerif.C10
-open PsdVerif PsdVerif.Tree
+open PsdVerif PsdVerif.TreeSt
 
 /-! ### The invariant holds initially and is preserved -/
 
